@@ -228,7 +228,7 @@ def replay(case):
 @st.composite
 def cases(draw, depth):
     t = draw(gt.types(depth, leaves=LEAVES, collections=True, lambdas=True, big_maps=True))
-    at = draw(gt.decorate(t, field_ok=True))
+    at = draw(gt.decorate(t, field_ok=True, bare=0))
     v = draw(gt.values(t, ptrs=True))
     return {"t": at, "v": rv.to_micheline(t, v), "as_parameter": draw(st.booleans())}
 
